@@ -9,6 +9,8 @@ Open Scope N_scope.
 
 (** reading the script back (statement `window.__LEPTOS_I18N_TRANSLATIONS = <JSON>;`, JSON grammar
     of RFC 8259) gives exactly the units that were written, in order, whatever the strings are *)
+(** [us] ranges over ALL lists of units: no unit, units whose table is empty ([commas true [] = []], the array is
+    printed as `[]`), one string, many — see the example [C17_ex_empty_tables] below *)
 Theorem C17_decode : forall us, decode_script (to_array us) = Some us.
 Proof. exact decode_to_array. Qed.
 
@@ -71,4 +73,19 @@ Example C17_ex :
   decode_script (to_array us) = Some us
   /\ spec_C17 (rev us) (to_array us) = true
   /\ spec_C17 [hd ([], None, []) us] (to_array us) = false.
+Proof. vm_compute. repeat split. Qed.
+
+(** units with an empty table, alone, first, in the middle and last: printed as `"values":[]` and decoded back;
+    the text a writer that drops the "trailing separator" unconditionally would produce for an empty table
+    (`"values":]}`) is not a script the client can read, and neither is anything that follows it *)
+Example C17_ex_empty_tables :
+  let e1 : unit_ := ([101; 110], Some [101; 48], []) in
+  let e2 : unit_ := ([102; 114], None, []) in
+  let u : unit_ := ([100; 101], Some [110; 115], [[34]; []]) in
+  to_array [e2] = S_prefix ++ S_locale ++ esc_str fu_html [102; 114] ++ S_id_null ++ S_unit_end ++ S_end
+  /\ decode_script (to_array [e1]) = Some [e1]
+  /\ decode_script (to_array [e1; u; e2; u; e1]) = Some [e1; u; e2; u; e1]
+  /\ spec_C17 [u; e2] (to_array [e2; u]) = true
+  /\ decode_script (S_prefix ++ fmt_unit u ++ [44] ++ S_locale ++ esc_str fu_html [102; 114]
+                     ++ removelast S_id_null ++ S_unit_end ++ S_end) = None.
 Proof. vm_compute. repeat split. Qed.
